@@ -52,7 +52,7 @@ func init() { register(c01{}) }
 
 func (c01) ID() string     { return "C01" }
 func (c01) Level() string  { return "exploration" }
-func (c01) QuickRuns() int { return 60000 }
+func (c01) QuickRuns() int { return 240000 }
 func (c01) Rule() string {
 	return "seeded protocol-level runs of every variant over the simulated wire with up to 4 single-field look-alike packets per probed TTL (each identifying field, identifier bumps to other/unprobed TTLs, +256 aliases, foreign flows, destination-form replies from non-target hosts, own outgoing probes), identifier bases at wrap points; a run is non-trivial when at least one look-alike was read by the endpoint; distinct = distinct (variant, TTL range, per-TTL form/perturbation) shapes"
 }
@@ -154,7 +154,7 @@ func init() { register(c02{}) }
 
 func (c02) ID() string     { return "C02" }
 func (c02) Level() string  { return "exploration" }
-func (c02) QuickRuns() int { return 60000 }
+func (c02) QuickRuns() int { return 300000 }
 func (c02) Rule() string {
 	return "seeded runs of every variant where each probed TTL is answered in a randomly drawn form of the device-behaviour catalogue (28-byte/full/RFC 4884 quotes, outer IP options, rewritten quoted TTL/checksum/TOS, NAT-rewritten quoted source in relaxed mode, echo reply, unreachable codes, SYN-ACK/RST/RST-ACK, SACK blocks for ISNs incl. wrap-around) with loss, duplication, reordering of other replies and arrival times over the whole window; non-trivial = at least one genuine reply was scheduled inside the listening window; distinct = distinct (variant, per-TTL form) shapes"
 }
@@ -327,7 +327,7 @@ func init() { register(c03{}) }
 
 func (c03) ID() string     { return "C03" }
 func (c03) Level() string  { return "exploration" }
-func (c03) QuickRuns() int { return 80000 }
+func (c03) QuickRuns() int { return 320000 }
 func (c03) Rule() string {
 	return "half of the runs drive both engines through a scripted driver answering any subset of TTLs, several TTLs as destination, duplicates and late responses under scheduler-chosen interleavings; the other half are protocol-level runs of every variant over the wire (first/last TTL anywhere in 1..255); the shape invariant is evaluated on every successful return ([]ProbeResponse, ToHops output, run.Hops); non-trivial = the run returned a path; distinct = distinct scenario shapes"
 }
@@ -385,7 +385,7 @@ func init() { register(c04{}) }
 
 func (c04) ID() string     { return "C04" }
 func (c04) Level() string  { return "exploration" }
-func (c04) QuickRuns() int { return 60000 }
+func (c04) QuickRuns() int { return 300000 }
 func (c04) Rule() string {
 	return "C01's generator plus a dedicated family: destination-form replies (echo reply, SYN-ACK/RST, SACK ACK, unreachable) carrying the right identifiers but sent by hosts that are not the target, and time-exceeded sent by mid-path routers and by the target itself; a hop must be marked destination iff the reply the reference fold selected for it is a proof-of-arrival reply from the target; non-trivial = a destination-form packet from a non-target host or an error from the target was read; distinct = distinct shapes"
 }
@@ -469,7 +469,7 @@ func init() { register(c05{}) }
 
 func (c05) ID() string     { return "C05" }
 func (c05) Level() string  { return "exploration" }
-func (c05) QuickRuns() int { return 60000 }
+func (c05) QuickRuns() int { return 130000 }
 func (c05) Rule() string {
 	return "seeded runs of every variant with arbitrary per-hop delays on the virtual clock (non-monotone, duplicates with larger delay, later probes' replies overtaking earlier ones, production-scale 1-3 s timeouts, send delays from 0 to several poll intervals, in-seam stalls of the sender), plus RunTraceroute requests with end-to-end probes; each reported RTT is compared with (arrival of the first accepted reply) - (hand-off of the same probe), tolerance one observed poll interval; non-trivial = a hop with an RTT was reported; distinct = distinct shapes"
 }
@@ -583,7 +583,7 @@ func init() { register(c06{}) }
 
 func (c06) ID() string     { return "C06" }
 func (c06) Level() string  { return "exploration" }
-func (c06) QuickRuns() int { return 60000 }
+func (c06) QuickRuns() int { return 240000 }
 func (c06) Rule() string {
 	return "every byte string handed to Sink.WriteTo in seeded runs of every variant (TTL ranges anywhere in 1..255, IP-ID/echo-id/ISN bases at wrap points, any network behaviour deciding when the destination is seen) is decoded by the independent codec and checked per probe (lengths, checksums, TTL, flow constancy, identifier uniqueness) and per run (one probe per TTL, increasing order, pacing, nothing after the destination answer, reported endpoints); non-trivial = at least two probes were emitted; distinct = distinct (variant, TTL range, timing) shapes; the thorough tier additionally walks every TTL 1..255 of every variant"
 }
@@ -768,7 +768,7 @@ func init() { register(c09{}) }
 
 func (c09) ID() string     { return "C09" }
 func (c09) Level() string  { return "exploration" }
-func (c09) QuickRuns() int { return 60000 }
+func (c09) QuickRuns() int { return 150000 }
 func (c09) Rule() string {
 	return "seeded runs of every variant and both families with damaged packets injected as a network fault before, between and after genuine replies: every truncation length, bit flips and overwrites of structural fields (version, IHL, lengths, protocol, inner headers, TCP data offset, option lengths), oversize packets, random byte strings of 0..2048 bytes with forced IPv4/IPv6 version nibbles, unrelated SCTP/fragment/foreign-flow traffic; the run must not crash or fail and must return the reference fold of the genuine replies; non-trivial = at least one damaged or random packet was read by the endpoint; distinct = distinct shapes. Not coverage-guided fuzzing: generation is seeded and structure-aware only"
 }
